@@ -394,8 +394,13 @@ func (txn *Txn[T]) Prefix(key index.Key) *Iterator[T] {
 	var matchLen PrefixLen
 	for node != nil {
 		matchLen = longestMatch(matchLen, node, data, prefixLen)
-		if matchLen == prefixLen || matchLen < node.prefixLen() {
+		if matchLen == prefixLen {
 			break
+		}
+		if matchLen < node.prefixLen() {
+			// The search prefix diverges from this node's prefix and thus
+			// nothing in this subtree is covered by it.
+			return nil
 		}
 		node = node.children[getBitAt(data, node.prefixLen())]
 	}
